@@ -765,7 +765,12 @@ def _judge(case, obs, prev_hung):
 
     # ---- C06.timeout_reported
     ok, shape, text = True, 'ok', ''
-    if v.kind == REF.TIMEOUT:
+    errs = (':%s_in_stream_callback' % '+'.join(obs.errors)) if obs.errors else ''
+    if obs.sent == 0 and not (obs.result == 'raise' and obs.exc[0] == 'CallError' and 'imed out' not in obs.exc[1]):
+        # nothing was asked, so nothing can be answered: whatever the call then reports is not "no reply in time"
+        ok, shape = False, 'request_never_sent' + errs
+        text = 'the call never put its request on the wire (the scripted replies are never triggered)'
+    elif v.kind == REF.TIMEOUT:
         if obs.result == 'raise' and obs.exc[0] == 'CallError':
             if obs.elapsed is not None and obs.elapsed > v.give_up_by + EPS:
                 ok, shape = False, 'late_timeout'
@@ -805,11 +810,13 @@ def _judge(case, obs, prev_hung):
     ok = obs.result != 'hang'
     shape = 'ok'
     if not ok:
-        if v.kind == REF.TIMEOUT:
+        if obs.sent == 0:
+            shape = 'request_never_sent' + errs
+        elif v.kind == REF.TIMEOUT:
             shape = 'waits_forever_without_own_reply'
         elif any(m.call == obs.k and m.kind in 'OD' for m in obs.consumed):
             # the own reply was taken off the socket and the call still did not return it
-            shape = 'own_reply_dropped' + (':%s_in_stream_callback' % '+'.join(obs.errors) if obs.errors else '')
+            shape = 'own_reply_dropped' + errs
         else:
             shape = 'own_reply_never_read'
     sh_h = shape
